@@ -11,6 +11,7 @@ import (
 	"sync"
 	"sync/atomic"
 	"testing"
+	"time"
 
 	"verif/internal/astcmp"
 	"verif/internal/corpus"
@@ -19,6 +20,7 @@ import (
 	"verif/internal/knownfind"
 	"verif/internal/recipe"
 	rtpkg "verif/internal/rt"
+	"verif/internal/shrink"
 
 	"pgregory.net/rapid"
 )
@@ -141,6 +143,16 @@ func TestC01Corpus(t *testing.T) {
 			defer mu.Unlock()
 			switch {
 			case err != nil:
+				// minimise the file: failing declaration first, then statement by statement
+				if r.Violations() < 3 {
+					small := shrink.Source([]byte(c.Src), func(b []byte) bool {
+						return hx.Safe(func() error { return check(Case{Name: c.Name, Root: c.Root, Src: recipe.Text(b)}) }) != nil
+					}, 20*time.Second)
+					c.Src = recipe.Text(small)
+					if e2 := hx.Safe(func() error { return check(c) }); e2 != nil {
+						err = e2
+					}
+				}
 				r.Violate(ck.Name, c, err)
 			case oc.status == "excluded-known":
 				r.ExcludedKnown()
